@@ -78,3 +78,18 @@ func init() {
 		return strings.HasPrefix(text, "import of ") && strings.Contains(text, "the import was not committed") && strings.Contains(text, "Load fails: version does not exist")
 	}
 }
+
+func init() {
+	// InitialVersionOption(0): the first commit is numbered 0, but version discovery (getLatestVersion,
+	// getFirstVersion) only looks at versions >= 1, so version 0 is committed and then not available; a store
+	// that holds only version 0 looks empty after reopening. Only failures of the InitialVersion-0 enumeration
+	// that are about version 0 are covered.
+	rawMatchers["c14_initial_version_zero"] = func(prop, text string) bool {
+		if !strings.HasPrefix(text, "InitialVersion 0 ") {
+			return false
+		}
+		return strings.Contains(text, "committed version 0:") || strings.Contains(text, "(version 0 missing)") ||
+			strings.Contains(text, "latest committed version [0]") || strings.Contains(text, "latest committed version 0") ||
+			strings.Contains(text, "committed versions [0") || strings.Contains(text, "committed so far: version [0")
+	}
+}
